@@ -22,7 +22,7 @@ class C12(PropertyCheck):
         return out
 
     def generate(self, rng, tier):
-        n = 3000 if tier == "quick" else 30000
+        n = 3000 if tier == "quick" else 15000
         cases = fsgen.gen_cases(rng, tier, "c12", n, "histories")
         for g in range(7):
             for l in range(8):
